@@ -43,6 +43,9 @@ POLLUTERS = {
     'http-request-headers-in-place': '导入《@验证HTTP》\n令请求设为（新建HTTP请求：“POST”、“http://a.example/x”、【“用户” = “甲”】）\n请求之头部#“Authorization” = “令牌”\n令二设为（新建HTTP请求：“POST”、“http://a.example/y”、“文本体”）\n二之头部#“X” = “1”\n',
     'http-response-in-place': '导入《@验证HTTP》\n令答设为（新建HTTP响应：200、“好”、【“K” = “1”】）\n答之头部#“Set-Cookie” = “a=1”\n',
     'redefine-library-class-ctor': '导入《@验证HTTP》\n如何新建HTTP响应？\n    输入码\n    （显示：“劫持”）\n令答设为（新建HTTP响应：200）\n',
+    # the same through an alias: the library class reaches a method as an argument and the constructor is declared for the parameter
+    'redefine-library-class-ctor-through-alias': '导入《@验证HTTP》\n如何改造？\n    输入某类型\n    如何新建某类型？\n        输入码\n        （显示：“劫持”）\n（改造：HTTP响应）\n令答设为（新建HTTP响应：200）\n',
+    'redefine-exception-ctor-through-alias': '如何改造？\n    输入某类型\n    如何新建某类型？\n        输入文\n        其内容 = “劫持”\n（改造：异常）\n',
     'json-parse-result-changed-unbound': '导入《@JSON》\n令文设为“{"a":[1,2],"b":{"c":1}}”\n令X设为以（解析JSON：文）（写入：“多”、99）\n令Y设为以（解析JSON：文）（移除：“a”）\n',
     'mutate-number-straight-from-literal': '如何升？\n    输入数\n    输出以数（自增：1）\n令甲设为（升：41）\n令乙设为以100（自减：30）\n令丙设为以【7，8】#1（自增：5）\n',
     'mutate-list-literal-in-method': '如何列？\n    输出【1，2】\n令A设为（列）\n以A（后增：3）\n',
